@@ -91,6 +91,12 @@ def run(tier="quick", seed=0, only=None):
                 fail("C05.is_empty", {"a": O.describe(a), "b": O.describe(b)}, True, False)
             if name == "or" and r.is_any() and not all(exp):
                 fail("C05.is_any", {"a": O.describe(a), "b": O.describe(b)}, True, False)
+            # exactness the other way round, where the expected answer is known without enumerating versions: a universal operand makes the union
+            # universal, an empty operand makes the intersection empty (whatever class carries the universal / empty set, on either side)
+            if name == "or" and (a.is_any() or b.is_any()) and not r.is_any():
+                fail("C05.is_any", {"a": O.describe(a), "b": O.describe(b)}, False, True)
+            if name == "and" and (a.is_empty() or b.is_empty()) and not r.is_empty():
+                fail("C05.is_empty", {"a": O.describe(a), "b": O.describe(b)}, False, True)
             if len(samples) < 4 and i % 300 == 7:
                 samples.append({"op": name, "a": str(a), "b": str(b), "result": str(r) if name != "x" else ""})
         # C14 laws as equalities of the returned objects
